@@ -40,6 +40,7 @@ MODEL = dict(
     need=[("i128", "ok"), ("i128", "fail"), ("i256", "ok"), ("i256", "fail"), ("wad_mul", "ok"), ("wad_mul", "fail"),
           ("wad_div", "ok"), ("wad_div", "fail"), ("wad_ratio", "ok"), ("wad_ratio", "fail"), ("wad_pow", "ok"), ("wad_pow", "fail")],
     need_cnt=["C12_class_" + c for c in _CLASSES],
+    selftest_drive=(8, 10),
     selftest=[
         lambda ev: _bump(ev, "Q") if ev["res"] == "ok" and ev["fn"] in ("i128", "wad_mul") else None,
         lambda ev: set_field(ev, ["res"], "fail") if ev["res"] == "ok" and ev["fn"] == "i128" and not ev["has2"] is False and ev["cres"] == "ok" else None,
